@@ -54,6 +54,9 @@ def replay(r):
     if r.get("dropout"):
         model = torch.nn.Sequential(torch.nn.Dropout(0.5), *list(model))
         model.train()
+        if r.get("root_eval"):
+            model.eval()
+            model[0].train()
     g = torch.Generator().manual_seed(5)
     seqs = [[int(v) for v in torch.randint(0, A, (L,), generator=g)] for _ in range(B)]
     X = C.real_onehot(seqs, A).double()
@@ -67,6 +70,23 @@ def replay(r):
             out.append(torch.stack(per))
         return torch.stack(out)
     refs_t = torch.stack([torch.stack([refgen(X[b:b + 1], 1, 7 + j)[0, 0] for j in range(ns)]) for b in range(B)])
+    if r.get("mode") == "dinuc":
+        # the library's own dinucleotide-shuffle references with a builtin / numpy integer seed: repeated calls and every
+        # batching must give identical references and attributions
+        import numpy
+        Xd = C.real_onehot(r["x"], A).double()
+        for seed in (numpy.int64(r.get("seed", 7)), numpy.int32(3), int(r.get("seed", 7))) if r.get("seed_kind") == "numpy" else (int(r.get("seed", 7)), 3):
+            try:
+                a0, r0 = deep_lift_shap(model, Xd, n_shuffles=ns, random_state=seed, batch_size=10 ** 6, device="cpu", return_references=True, warning_threshold=1e9)
+                for bs in (1, 2, 3, ns, ns + 1):
+                    a1, r1 = deep_lift_shap(model, Xd, n_shuffles=ns, random_state=seed, batch_size=bs, device="cpu", return_references=True, warning_threshold=1e9)
+                    if not torch.equal(r0, r1):
+                        return True, "random_state=%r (%s): the shuffled references differ between two calls / batch sizes (batch_size=%d)" % (seed, type(seed).__name__, bs)
+                    if not torch.allclose(a0, a1, atol=1e-10):
+                        return True, "random_state=%r (%s): attributions differ between two calls / batch sizes (batch_size=%d)" % (seed, type(seed).__name__, bs)
+            except Exception as e:
+                return True, "deep_lift_shap raised %s: %s" % (type(e).__name__, e)
+        return False, "ok"
     for mode in ("fn", "tensor"):
         kw = dict(target=r.get("target", 0), device="cpu", hypothetical=r.get("hypothetical", False), raw_outputs=r.get("raw", False), warning_threshold=1e9)
         if mode == "fn":
@@ -132,11 +152,19 @@ def worker(cfg):
             nn._DROPOUT_CALLS[0] = 0
             net = Wrap()
             net.train()
-        xc = C.sym_chars(ctx, "x", (B, L), A)
+            if cfg.get("root_mode") == "sym" and not bool(core.Bool("root_in_training_mode")):
+                # the caller put the model into eval mode and afterwards a sub-module back into training mode
+                net.eval()
+                net.drop.train()
+                ctx.state["root_eval"] = True
+        if cfg.get("x"):
+            xc = np.array(cfg["x"], dtype=object)            # concrete sequences (the real dinucleotide shuffle walks them)
+        else:
+            xc = C.sym_chars(ctx, "x", (B, L), A)
         X = C.onehot_from_chars(xc, A, dtype="float32")
         bs = core.Int("batch_size")
         ctx.assume(s_and(bs >= 1, bs <= B * ns + 1))
-        rs = core.Int("random_state")
+        rs = core.SNpInt(z3.Int("random_state")) if cfg.get("seed_kind") == "numpy" else core.Int("random_state")
         ctx.assume(rs >= 0)
         log = []
         kw = dict(target=cfg.get("target", 0), device="cpu", hypothetical=cfg.get("hypothetical", False), raw_outputs=cfg.get("raw", False), return_references=True)
@@ -144,12 +172,17 @@ def worker(cfg):
             refgen = make_refgen(ctx, A, L, log)
             kw.update(references=refgen, n_shuffles=ns, random_state=rs)
             sub = lambda idx: kw
+        elif mode == "dinuc":
+            # the library's own default reference generator (real dinucleotide_shuffle on the RNG model: every draw is an
+            # arbitrary outcome named by the seed it was drawn under), seeded with a builtin or a numpy integer
+            kw.update(n_shuffles=ns, random_state=rs)
+            sub = lambda idx: kw
         else:
             rc = C.sym_chars(ctx, "r", (B, ns, L), A)
             R = C.onehot_from_chars(rc, A, dtype="float32")
             kw.update(references=R)
             sub = lambda idx: dict(kw, references=R[idx])
-        rp = lambda m: dict(cfg, batch_size=core.model_value(m, bs))
+        rp = lambda m: dict(cfg, batch_size=core.model_value(m, bs), root_eval=bool(ctx.state.get("root_eval")), seed=(core.model_value(m, rs) if m is not None else 7))
         try:
             before = None
             if cfg.get("history_ops"):
@@ -310,7 +343,8 @@ def configs(tier):
     q = tier == "quick"
     cf = [dict(mode="fn", A=2, L=2, B=2, ns=2), dict(mode="tensor", A=2, L=2, B=2, ns=2, raw=True), dict(mode="fn", A=2, L=2, B=2, ns=3, hypothetical=True),
           dict(mode="fn", A=2, L=2, B=3, ns=1), dict(mode="tensor", A=2, L=2, B=4, ns=1),
-          dict(mode="tensor", A=2, L=2, B=2, ns=1, history_ops=True), dict(mode="tensor", A=2, L=2, B=2, ns=2, dropout=True)]
+          dict(mode="tensor", A=2, L=2, B=2, ns=1, history_ops=True), dict(mode="tensor", A=2, L=2, B=2, ns=2, dropout=True, root_mode="sym"),
+          dict(mode="dinuc", A=2, L=6, B=2, ns=2, x=[[0, 0, 1, 0, 1, 1], [1, 0, 0, 1, 1, 0]], seed_kind="numpy"), dict(mode="dinuc", A=2, L=6, B=2, ns=2, x=[[0, 1, 0, 0, 1, 1], [1, 1, 0, 1, 0, 0]])]
     cf += [dict(kind="lemma_rows", rule="nonlinear", Bp=2, n=2), dict(kind="lemma_rows", rule="maxpool", Bp=2, n=4, K=2)]
     if not q:
         cf += [dict(kind="lemma_rows", rule="nonlinear", Bp=3, n=2), dict(kind="lemma_rows", rule="maxpool", Bp=2, n=3, K=3, padding=1)]
